@@ -22,7 +22,7 @@ STREAM_FES = ("pandas", "numpy", "netcdf_obj", "netcdf_path", "xarray_obj", "xar
 # generation
 # --------------------------------------------------------------------------
 def generate(rng, tier="quick"):
-    tbl = wl.gen_table(rng, max_n=24 if tier == "quick" else 40, index_kinds=("range", "range", "offset", "datetime", "str"))
+    tbl = wl.gen_table(rng, max_n=24 if tier == "quick" else 40, index_kinds=("range", "range", "offset", "datetime", "str"), no_time_p=0.08)
     fault_free = rng.chance(0.15)
     kinds = () if fault_free else tuple(rng.subset(wl.FAULT_KINDS, 0.5, at_least=1))
     cfg = wl.gen_config(rng, tbl, max_ctx=3, max_tests=3, fault_kinds=kinds, max_faults=4)
@@ -244,6 +244,8 @@ def execute(scn):
         if c.get("dead"):
             bump("faults", "F5-whole-context")
 
+    if tbl.get("no_time"):
+        bump("probes", "source_without_time_axis")
     end_state = {}
     for r in reps:
         fe = r.frontend
